@@ -11,6 +11,7 @@ import sys
 import tempfile
 
 HERE = os.path.dirname(os.path.dirname(os.path.abspath(__file__)))
+ROUND = os.environ.get('SEED_ROUND', '3')
 
 
 def sh(cmd, cwd=None, env=None, timeout=900):
@@ -58,7 +59,7 @@ def main():
         shutil.copy(f'{src}/demo.py', dst)
         desc = open(f'{src}/desc.txt').read().strip() if os.path.exists(f'{src}/desc.txt') else ''
         meta = dict(property=pid, change=k, breaks=pid, files=c['files'], description=desc,
-                    origin='round 3: written by a fresh sub-agent that was given only the property text, the list of '
+                    origin=f'round {ROUND}: written by a fresh sub-agent that was given only the property text, the list of '
                            'locations earlier changes had used, and its own scratch worktree',
                     ported=False, ported_note=None,
                     apply=f'git -C /repo apply /verif/seeded/{pid}/{k}/patch.diff   (undo: git -C /repo checkout -- .)',
